@@ -546,24 +546,23 @@ func (m *Mast) SeekIter(ctx context.Context, k interface{}, f func(interface{}, 
 	if err != nil {
 		return err
 	}
-	keyLayer, err := m.keyLayer(k, m.branchFactor)
-	if err != nil {
-		return fmt.Errorf("layer: %w", err)
-	}
+	// Follow the search path of k all the way down, not just to k's own layer:
+	// when k is absent, entries not smaller than k also sit below that layer,
+	// and a node whose keys are all smaller than k still has larger ancestors.
 	options := findOptions{
-		targetLayer:   uint8min(keyLayer, m.height),
+		targetLayer:   0,
 		currentHeight: m.height,
 	}
-	node, i, err := node.findNode(ctx, m, k, &options)
+	_, _, err = node.findNode(ctx, m, k, &options)
 	if err != nil {
 		return err
 	}
-	if i >= len(node.Key) ||
-		options.targetLayer != options.currentHeight {
-		return nil
-	}
 	for i := len(options.path) - 1; i >= 0; i-- {
 		entry := options.path[i]
+		if i+1 < len(options.path) && options.path[i+1].node == entry.node {
+			// findNode stays on the same node when the link to follow is nil
+			continue
+		}
 		err = entry.node.seekIter(ctx, entry.linkIndex, f, m)
 		if err == ErrIterDone {
 			return nil
